@@ -660,6 +660,18 @@ class Body:
                         i = j + 1
                         self.fire('R14find')
                         continue
+                    if nm == 'sort':
+                        # R22: std::sort(X.begin(), X.end(), cmp)  over a whole container  ->  op2_sort_by_<cmp>(&X)   (an abstract callee: the unit's contract file says what it assumes)
+                        lp = next_sig(toks, b); rp = match_fwd(toks, lp)
+                        args = [untok(strip_ws(a_)) for a_ in split_top(toks[lp + 1:rp])]
+                        m0 = re.fullmatch(r'(.+?)\s*\.\s*begin\s*\(\s*\)', args[0]) if len(args) == 3 else None
+                        m1 = re.fullmatch(r'(.+?)\s*\.\s*end\s*\(\s*\)', args[1]) if len(args) == 3 else None
+                        if not (m0 and m1 and m0.group(1) == m1.group(1) and re.fullmatch(r'\w+', args[2])):
+                            raise ExtractionBreak('R22: unsupported std::sort form')
+                        out.extend(tokenize('op2_sort_by_%s(&(%s))' % (args[2], m0.group(1))))
+                        i = rp + 1
+                        self.fire('R22sort')
+                        continue
                     if nm in STD_MAP:
                         out.append(T('id', STD_MAP[nm]))
                         i = b + 1
@@ -915,14 +927,14 @@ class Body:
         tstr = re.sub(r'\s*::\s*', '::', tstr)
         name = toks[name_i].t
         words = tstr.replace('const ', '').replace('static ', '').strip()
-        if toks[after].t == '(' and words not in tm and words not in BASE_TYPEMAP and words != 'auto':
+        if toks[after].t == '(' and words not in tm and words not in BASE_TYPEMAP and words != 'auto' and words not in ctx.get('ctor_calls', {}):
             return None     # a call like  foo bar( ... ) cannot be told from a declaration without a known type
-        if toks[after].t in ('(', '{') and words in tm and tm[words] in ctx.get('ctor_calls', {}):
+        if toks[after].t in ('(', '{') and ((words in tm and tm[words] in ctx.get('ctor_calls', {})) or words in ctx.get('ctor_calls', {})):
             # R15: local object constructed with arguments  T x(args);  or  T x{args};  (a class with a user-provided constructor)
             e = match_fwd(toks, after)
             semi = next_sig(toks, e)
             if toks[semi].t != ';': return None
-            cty0 = tm[words]
+            cty0 = tm[words] if words in tm and tm[words] in ctx['ctor_calls'] else words
             ctor = ctx['ctor_calls'][cty0]
             new = toks[:s] + [T('id', cty0), T('ws', ' '), T('id', '@@' + name), T('op', ';'), T('ws', ' '), T('id', '@@CALL@@' + ctor['fn']), T('op', '('), T('op', '&'), T('id', '@@' + name)] \
                   + ([T('op', ','), T('ws', ' ')] + toks[after + 1:e] if strip_ws(toks[after + 1:e]) else []) + [T('op', ')'), T('op', ';')] + toks[semi + 1:]
